@@ -337,7 +337,7 @@ func factsAndNames(path string) (sqlm.Facts, []string, error) {
 		return nil, nil, err
 	}
 	n, err := fkNames(db)
-	return f, n, err
+	return canonFacts(f), n, err
 }
 
 // execScript executes an exported SQL script with go-sqlite3 on an EMPTY file — Atlas is not involved.
